@@ -1,1 +1,418 @@
-(* csv group: affiliate from_strep lemmas (in progress) *)
+(* Affiliate::from_strep and name(): from_strep (name a) = a for every
+   affiliate a produced by from_strep from ASCII text, including the
+   registered marker "(R)".  (affiliate.rs AffiliateData::from_strep) *)
+From Coq Require Import List NArith ZArith Bool Arith Lia.
+From ACB Require Import Base.Outcome Model.CsvFields Proofs.CsvDigits Proofs.CsvFieldProps.
+Import ListNotations.
+Local Open Scope N_scope.
+
+(* ---------------------------------------------------------------- trim on ASCII text *)
+Fixpoint dropws (s : bytes) : bytes :=
+  match s with
+  | a :: r => if is_ascii_ws a then dropws r else s
+  | [] => []
+  end.
+
+Lemma is_ascii_cons a r : is_ascii (a :: r) = true <-> a < 128 /\ is_ascii r = true.
+Proof. unfold is_ascii. cbn [forallb]. rewrite andb_true_iff, N.ltb_lt. tauto. Qed.
+Lemma is_ascii_app a b : is_ascii (a ++ b) = is_ascii a && is_ascii b.
+Proof. apply forallb_app. Qed.
+Lemma is_ascii_rev a : is_ascii (rev a) = is_ascii a.
+Proof.
+  induction a as [|x a IH]; [reflexivity|]. cbn [rev]. rewrite is_ascii_app, IH. unfold is_ascii. cbn [forallb].
+  rewrite andb_true_r. apply andb_comm.
+Qed.
+
+Lemma trim_start_ascii s : is_ascii s = true -> trim_start s = dropws s.
+Proof.
+  induction s as [|a r IH]; intros H; [reflexivity|]. apply is_ascii_cons in H. destruct H as [Ha Hr].
+  destruct (is_ascii_ws a) eqn:E.
+  - cbn [trim_start dropws]. rewrite E. apply IH. exact Hr.
+  - cbn [dropws]. rewrite E. apply trim_start_edge. unfold edge_ok. rewrite E.
+    apply andb_true_intro. split; [apply N.ltb_lt; exact Ha|reflexivity].
+Qed.
+Lemma trim_start_rev_ascii s : is_ascii s = true -> trim_start_rev s = dropws s.
+Proof.
+  induction s as [|a r IH]; intros H; [reflexivity|]. apply is_ascii_cons in H. destruct H as [Ha Hr].
+  destruct (is_ascii_ws a) eqn:E.
+  - cbn [trim_start_rev dropws]. rewrite E. apply IH. exact Hr.
+  - cbn [dropws]. rewrite E. apply trim_start_rev_edge. unfold edge_ok. rewrite E.
+    apply andb_true_intro. split; [apply N.ltb_lt; exact Ha|reflexivity].
+Qed.
+
+Lemma dropws_spec s : exists a, s = a ++ dropws s /\ forallb is_ascii_ws a = true.
+Proof.
+  induction s as [|x r IH]; [exists []; split; reflexivity|]. cbn [dropws].
+  destruct (is_ascii_ws x) eqn:E.
+  - destruct IH as [a [H1 H2]]. exists (x :: a). split; [cbn; f_equal; exact H1|cbn; rewrite E; exact H2].
+  - exists []. split; reflexivity.
+Qed.
+Lemma dropws_ascii s : is_ascii s = true -> is_ascii (dropws s) = true.
+Proof.
+  intros H. destruct (dropws_spec s) as [a [E _]]. rewrite E, is_ascii_app in H. apply andb_prop in H. apply H.
+Qed.
+
+Definition trim_a (s : bytes) : bytes := rev (dropws (rev (dropws s))).
+Lemma trim_ascii s : is_ascii s = true -> trim s = trim_a s.
+Proof.
+  intros H. unfold trim, trim_end, trim_a. rewrite (trim_start_ascii s H).
+  rewrite trim_start_rev_ascii; [reflexivity|]. rewrite is_ascii_rev. apply dropws_ascii. exact H.
+Qed.
+
+(* s = a ++ trim_a s ++ b *)
+Lemma trim_a_spec s : exists a b, s = a ++ trim_a s ++ b.
+Proof.
+  destruct (dropws_spec s) as [a [E1 _]]. destruct (dropws_spec (rev (dropws s))) as [b [E2 _]].
+  exists a, (rev b). unfold trim_a. rewrite <- rev_app_distr, <- E2, rev_involutive. exact E1.
+Qed.
+
+(* the first and last bytes of a trimmed text are not white space *)
+Lemma dropws_head s : match dropws s with a :: _ => is_ascii_ws a = false | [] => True end.
+Proof.
+  induction s as [|x r IH]; [exact I|]. cbn [dropws]. destruct (is_ascii_ws x) eqn:E; [exact IH|exact E].
+Qed.
+Lemma dropws_fix s : match s with a :: _ => is_ascii_ws a = false | [] => True end -> dropws s = s.
+Proof. destruct s as [|a r]; [reflexivity|]. intros H. cbn [dropws]. rewrite H. reflexivity. Qed.
+
+Lemma dropws_last s z : is_ascii_ws z = false -> dropws (s ++ [z]) = dropws s ++ [z].
+Proof.
+  intros Hz. induction s as [|x r IH]; cbn [app dropws]; [rewrite Hz; reflexivity|].
+  destruct (is_ascii_ws x); [exact IH|reflexivity].
+Qed.
+
+Lemma trim_a_idem s : trim_a (trim_a s) = trim_a s.
+Proof.
+  unfold trim_a. set (u := dropws (rev (dropws s))).
+  pose proof (dropws_head (rev (dropws s))) as Hu. fold u in Hu.
+  (* rev u ends with the head of u (non ws) and starts with the last byte of dropws s *)
+  assert (E1 : dropws (rev u) = rev u).
+  { destruct (dropws_spec (rev (dropws s))) as [b [Eb _]]. fold u in Eb.
+    destruct u as [|z u'] eqn:Eu; [reflexivity|].
+    (* dropws s = rev (b ++ z :: u') = rev u' ++ [z] ++ rev b; its head is non-ws *)
+    apply dropws_fix. pose proof (dropws_head s) as Hs.
+    assert (Es : dropws s = rev (z :: u') ++ rev b).
+    { rewrite <- rev_app_distr, <- Eb, rev_involutive. reflexivity. }
+    rewrite Es in Hs. destruct (rev (z :: u')) as [|h t] eqn:Er.
+    - apply (f_equal (@length N)) in Er. rewrite rev_length in Er. discriminate.
+    - exact Hs. }
+  rewrite E1, rev_involutive. f_equal. apply dropws_fix. exact Hu.
+Qed.
+
+Lemma trim_a_nonws_ends s :
+  trim_a s <> [] ->
+  exists h m z, (trim_a s = h :: m ++ [z] \/ (trim_a s = [h] /\ z = h)) /\ is_ascii_ws h = false /\ is_ascii_ws z = false.
+Proof.
+  intros Hne. pose proof (trim_a_idem s) as Hid. unfold trim_a in Hid at 1. set (t := trim_a s) in *.
+  (* head: dropws t = t since t = trim_a t *)
+  assert (Hd : dropws t = t /\ dropws (rev t) = rev t).
+  { assert (A : dropws (rev (dropws t)) = rev t) by (rewrite <- (rev_involutive (dropws _)), Hid; reflexivity).
+    pose proof (dropws_head (rev (dropws t))) as H1. rewrite A in H1.
+    destruct (dropws_spec t) as [a [Ea _]].
+    assert (B : length (dropws t) = length t).
+    { apply (f_equal (@length N)) in A. rewrite rev_length in A.
+      destruct (dropws_spec (rev (dropws t))) as [b [Eb _]]. apply (f_equal (@length N)) in Eb.
+      rewrite app_length, rev_length in Eb. apply (f_equal (@length N)) in Ea. rewrite app_length in Ea. lia. }
+    assert (a = []) by (apply (f_equal (@length N)) in Ea; rewrite app_length in Ea; destruct a; [reflexivity|cbn in Ea; lia]).
+    subst a. cbn in Ea. split; [symmetry; exact Ea|]. rewrite <- Ea in A. exact A. }
+  destruct Hd as [D1 D2].
+  pose proof (dropws_head t) as H1. rewrite D1 in H1.
+  pose proof (dropws_head (rev t)) as H2. rewrite D2 in H2.
+  destruct t as [|h r] eqn:Et; [contradiction|].
+  destruct (rev (h :: r)) as [|z rr] eqn:Er.
+  - apply (f_equal (@length N)) in Er. rewrite rev_length in Er. discriminate.
+  - exists h. destruct r as [|x r'].
+    + exists [], h. split; [right; split; reflexivity|split; exact H1].
+    + assert (E : h :: x :: r' = rev rr ++ [z]).
+      { rewrite <- (rev_involutive (h :: x :: r')), Er. reflexivity. }
+      destruct (rev rr) as [|h' m] eqn:Em.
+      * cbn in E. discriminate.
+      * cbn in E. inversion E; subst. exists m, z. repeat split; auto.
+Qed.
+
+(* ---------------------------------------------------------------- the marker "(R)" *)
+Lemma has_reg_cons x r : has_reg r = true -> has_reg (x :: r) = true.
+Proof.
+  intros H. destruct r as [|b [|c r']]; try discriminate. cbn [has_reg] in *. rewrite H. apply orb_true_r.
+Qed.
+Lemma has_reg_app_l a m : has_reg m = true -> has_reg (a ++ m) = true.
+Proof. induction a as [|x a IH]; intros H; [exact H|]. cbn [app]. apply has_reg_cons. auto. Qed.
+Lemma has_reg_app_r m b : has_reg m = true -> has_reg (m ++ b) = true.
+Proof.
+  induction m as [|x r IH]; intros H; [discriminate|].
+  destruct r as [|y [|z r']]; try discriminate. cbn [app has_reg] in *.
+  apply orb_prop in H. destruct H as [H|H]; [rewrite H; reflexivity|].
+  rewrite (IH H). apply orb_true_r.
+Qed.
+Lemma no_reg_sub a m b : has_reg (a ++ m ++ b) = false -> has_reg m = false.
+Proof.
+  intros H. destruct (has_reg m) eqn:E; [|reflexivity].
+  rewrite (has_reg_app_l a (m ++ b) (has_reg_app_r m b E)) in H. discriminate.
+Qed.
+
+(* one-step unfoldings *)
+Definition hit (a : N) (r : bytes) : bool := match r with b :: c :: _ => is_reg3 a b c | _ => false end.
+Lemma has_reg_step a r : has_reg (a :: r) = hit a r || has_reg r.
+Proof. destruct r as [|b [|c r']]; reflexivity. Qed.
+Lemma repl_reg_step a r :
+  repl_reg (a :: r) = if hit a r then 32 :: repl_reg (skipn 2 r) else a :: repl_reg r.
+Proof. destruct r as [|b [|c r']]; reflexivity. Qed.
+Lemma repl_reg_head c r : exists t, repl_reg (c :: r) = c :: t \/ repl_reg (c :: r) = 32 :: t.
+Proof. rewrite repl_reg_step. destruct (hit c r); eexists; [right|left]; reflexivity. Qed.
+Lemma hit_space r : hit 32 r = false.
+Proof. destruct r as [|b [|c r']]; reflexivity. Qed.
+Lemma is_reg3_mid a c : is_reg3 a 32 c = false.
+Proof. unfold is_reg3. cbn. rewrite andb_false_r. reflexivity. Qed.
+Lemma is_reg3_last a b : is_reg3 a b 32 = false.
+Proof. unfold is_reg3. cbn. apply andb_false_r. Qed.
+
+Lemma hit_repl a r : hit a r = false -> hit a (repl_reg r) = false.
+Proof.
+  intros H. destruct r as [|b r']; [reflexivity|]. rewrite repl_reg_step.
+  destruct (hit b r') eqn:Eb.
+  - unfold hit. destruct (repl_reg (skipn 2 r')); [reflexivity|apply is_reg3_mid].
+  - destruct r' as [|c r'']; [reflexivity|].
+    destruct (repl_reg_head c r'') as [t [E|E]]; rewrite E; cbn [hit].
+    + exact H.
+    + apply is_reg3_last.
+Qed.
+
+Lemma repl_reg_no_reg s : has_reg (repl_reg s) = false.
+Proof.
+  induction s as [s IH] using (well_founded_induction (Wf_nat.well_founded_ltof _ (@length N))).
+  destruct s as [|a r]; [reflexivity|]. rewrite repl_reg_step. destruct (hit a r) eqn:E.
+  - rewrite has_reg_step, hit_space. cbn [orb]. apply IH. unfold ltof.
+    destruct r as [|b [|c r']]; cbn; lia.
+  - rewrite has_reg_step, (hit_repl a r E). cbn [orb]. apply IH. unfold ltof. cbn. lia.
+Qed.
+
+(* ---------------------------------------------------------------- runs of spaces *)
+Fixpoint nodbl (s : bytes) : bool :=
+  match s with
+  | a :: r => negb ((a =? 32) && (match r with b :: _ => b =? 32 | [] => false end)) && nodbl r
+  | [] => true
+  end.
+Lemma collapse_nodbl_fix s : nodbl s = true -> collapse s = s.
+Proof.
+  induction s as [|a r IH]; intros H; [reflexivity|]. cbn [nodbl] in H. apply andb_prop in H.
+  destruct H as [H1 H2]. apply negb_true_iff in H1. cbn [collapse]. rewrite H1, (IH H2). reflexivity.
+Qed.
+Definition dbl (a : N) (r : bytes) : bool := (a =? 32) && (match r with b :: _ => b =? 32 | [] => false end).
+Lemma collapse_step a r : collapse (a :: r) = if dbl a r then collapse r else a :: collapse r.
+Proof. reflexivity. Qed.
+(* the first byte survives (a dropped space is followed by a space) *)
+Lemma collapse_head b r : exists t, collapse (b :: r) = b :: t.
+Proof.
+  revert b. induction r as [|c r IH]; intros b.
+  - exists []. cbn. rewrite andb_false_r. reflexivity.
+  - rewrite collapse_step. destruct (dbl b (c :: r)) eqn:E.
+    + unfold dbl in E. apply andb_prop in E. destruct E as [Eb Ec]. apply N.eqb_eq in Eb, Ec. subst.
+      apply IH.
+    + eexists. reflexivity.
+Qed.
+Lemma collapse_nodbl s : nodbl (collapse s) = true.
+Proof.
+  induction s as [|a r IH]; [reflexivity|]. rewrite collapse_step.
+  destruct (dbl a r) eqn:E; [exact IH|].
+  cbn [nodbl]. rewrite IH, andb_true_r. apply negb_true_iff.
+  destruct r as [|b r']; [apply andb_false_r|].
+  destruct (collapse_head b r') as [t Et]. rewrite Et. exact E.
+Qed.
+Lemma nodbl_tail x r : nodbl (x :: r) = true -> nodbl r = true.
+Proof. cbn [nodbl]. intros H. apply andb_prop in H. apply H. Qed.
+Lemma nodbl_app_l a m : nodbl (a ++ m) = true -> nodbl m = true.
+Proof. induction a as [|x a IH]; intros H; [exact H|]. apply IH. apply (nodbl_tail x). exact H. Qed.
+Lemma nodbl_app_r m b : nodbl (m ++ b) = true -> nodbl m = true.
+Proof.
+  induction m as [|x r IH]; intros H; [reflexivity|]. cbn [app nodbl] in *. apply andb_prop in H.
+  destruct H as [H1 H2]. rewrite (IH H2), andb_true_r.
+  destruct r as [|y r']; [rewrite andb_false_r; reflexivity|exact H1].
+Qed.
+Lemma nodbl_sub a m b : nodbl (a ++ m ++ b) = true -> nodbl m = true.
+Proof. intros H. apply nodbl_app_l in H. apply nodbl_app_r in H. exact H. Qed.
+
+Lemma collapse_keeps_no_reg s : has_reg s = false -> has_reg (collapse s) = false.
+Proof.
+  induction s as [|a r IH]; intros H; [reflexivity|].
+  rewrite has_reg_step in H. apply orb_false_iff in H. destruct H as [Hh Hr].
+  rewrite collapse_step. destruct (dbl a r) eqn:E; [apply IH; exact Hr|].
+  rewrite has_reg_step, (IH Hr), orb_false_r.
+  destruct r as [|b r1]; [reflexivity|].
+  rewrite collapse_step. destruct (dbl b r1) eqn:Eb.
+  - (* b is a dropped space; the kept text starts with a space *)
+    unfold dbl in Eb. apply andb_prop in Eb. destruct Eb as [_ Ec].
+    destruct r1 as [|c r2]; [discriminate|]. apply N.eqb_eq in Ec. subst c.
+    destruct (collapse_head 32 r2) as [t Et]. rewrite Et. unfold hit. destruct t; [reflexivity|apply is_reg3_mid].
+  - destruct r1 as [|c r2]; [reflexivity|]. destruct (collapse_head c r2) as [t Et]. rewrite Et.
+    cbn [hit] in *. exact Hh.
+Qed.
+
+(* ---------------------------------------------------------------- ASCII is preserved *)
+Lemma is_ascii_skipn n s : is_ascii s = true -> is_ascii (skipn n s) = true.
+Proof.
+  revert s. induction n as [|n IH]; intros s H; [exact H|]. destruct s as [|a r]; [reflexivity|].
+  cbn [skipn]. apply IH. apply is_ascii_cons in H. apply H.
+Qed.
+Lemma repl_reg_ascii s : is_ascii s = true -> is_ascii (repl_reg s) = true.
+Proof.
+  induction s as [s IH] using (well_founded_induction (Wf_nat.well_founded_ltof _ (@length N))).
+  intros H. destruct s as [|a r]; [reflexivity|]. apply is_ascii_cons in H. destruct H as [Ha H].
+  rewrite repl_reg_step. destruct (hit a r).
+  - apply is_ascii_cons. split; [lia|]. apply IH; [|apply is_ascii_skipn; exact H].
+    unfold ltof. destruct r as [|b [|c r']]; cbn; lia.
+  - apply is_ascii_cons. split; [exact Ha|]. apply IH; [unfold ltof; cbn; lia|exact H].
+Qed.
+Lemma collapse_ascii s : is_ascii s = true -> is_ascii (collapse s) = true.
+Proof.
+  induction s as [|a r IH]; intros H; [reflexivity|]. apply is_ascii_cons in H. destruct H as [Ha H].
+  cbn [collapse]. destruct ((a =? 32) && _); [apply IH; exact H|].
+  apply is_ascii_cons. split; [exact Ha|apply IH; exact H].
+Qed.
+Lemma trim_a_ascii s : is_ascii s = true -> is_ascii (trim_a s) = true.
+Proof.
+  intros H. destruct (trim_a_spec s) as [a [b E]]. rewrite E, !is_ascii_app in H.
+  apply andb_prop in H. destruct H as [_ H]. apply andb_prop in H. apply H.
+Qed.
+
+(* ---------------------------------------------------------------- the pretty name *)
+Definition pretty_of (s : bytes) : bytes :=
+  let p0 := if has_reg s then repl_reg s else s in
+  let p1 := trim (collapse p0) in
+  if is_nil p1 then s_default else p1.
+
+Record pretty_ok (p : bytes) : Prop := {
+  po_ascii : is_ascii p = true;
+  po_noreg : has_reg p = false;
+  po_nodbl : nodbl p = true;
+  po_trim : trim_a p = p;
+  po_ne : p <> []
+}.
+
+Lemma pretty_of_ok s : is_ascii s = true -> pretty_ok (pretty_of s).
+Proof.
+  intros Ha. unfold pretty_of. set (p0 := if has_reg s then repl_reg s else s).
+  assert (A0 : is_ascii p0 = true) by (unfold p0; destruct (has_reg s); [apply repl_reg_ascii|]; exact Ha).
+  assert (R0 : has_reg p0 = false) by (unfold p0; destruct (has_reg s) eqn:E; [apply repl_reg_no_reg|exact E]).
+  assert (Ac : is_ascii (collapse p0) = true) by (apply collapse_ascii; exact A0).
+  rewrite (trim_ascii _ Ac).
+  destruct (is_nil (trim_a (collapse p0))) eqn:En.
+  - constructor; try reflexivity. discriminate.
+  - destruct (trim_a_spec (collapse p0)) as [a [b E]].
+    constructor.
+    + apply trim_a_ascii. exact Ac.
+    + apply (no_reg_sub a _ b). rewrite <- E. apply collapse_keeps_no_reg. exact R0.
+    + apply (nodbl_sub a _ b). rewrite <- E. apply collapse_nodbl.
+    + apply trim_a_idem.
+    + intros E0. rewrite E0 in En. discriminate.
+Qed.
+
+(* ---------------------------------------------------------------- from_strep on a pretty name *)
+Lemma from_strep_data_eq s :
+  from_strep_data s =
+  if has_reg s
+  then {| a_id := lower (pretty_of s) ++ s_reg_suffix; a_name := pretty_of s ++ s_reg_suffix; a_reg := true |}
+  else {| a_id := lower (pretty_of s); a_name := pretty_of s; a_reg := false |}.
+Proof. unfold from_strep_data, pretty_of. destruct (has_reg s); reflexivity. Qed.
+
+Lemma pretty_fix p : pretty_ok p -> pretty_of p = p /\ has_reg p = false.
+Proof.
+  intros [Ha Hr Hd Ht Hn]. split; [|exact Hr]. unfold pretty_of. rewrite Hr, (collapse_nodbl_fix p Hd).
+  rewrite (trim_ascii p Ha), Ht. destruct p; [contradiction|reflexivity].
+Qed.
+
+(* "(R)" after the name *)
+Lemma has_reg_suffix p : has_reg (p ++ s_reg_suffix) = true.
+Proof. apply has_reg_app_l. reflexivity. Qed.
+
+Lemma repl_reg_suffix p : has_reg p = false -> repl_reg (p ++ s_reg_suffix) = p ++ [32; 32].
+Proof.
+  induction p as [|a r IH]; intros H; [reflexivity|].
+  rewrite has_reg_step in H. apply orb_false_iff in H. destruct H as [Hh Hr].
+  cbn [app]. rewrite repl_reg_step.
+  assert (E : hit a (r ++ s_reg_suffix) = false).
+  { destruct r as [|b [|c r']]; cbn [app hit s_reg_suffix].
+    - apply is_reg3_mid.
+    - apply is_reg3_last.
+    - exact Hh. }
+  rewrite E. f_equal. apply IH. exact Hr.
+Qed.
+
+Lemma collapse_two_spaces p z m :
+  nodbl (p) = true -> p = m ++ [z] -> z <> 32 -> collapse (p ++ [32; 32]) = p ++ [32].
+Proof.
+  intros Hd -> Hz. rewrite <- app_assoc. cbn [app].
+  induction m as [|x r IH].
+  - cbn. destruct (N.eqb_spec z 32); [contradiction|reflexivity].
+  - cbn [app collapse]. cbn [app nodbl] in Hd. apply andb_prop in Hd. destruct Hd as [H1 H2].
+    apply negb_true_iff in H1.
+    assert (E : (match r ++ [z; 32; 32] with b :: _ => b =? 32 | [] => false end)
+                = (match r ++ [z] with b :: _ => b =? 32 | [] => false end)) by (destruct r; reflexivity).
+    rewrite E, H1. f_equal. apply IH. exact H2.
+Qed.
+
+Lemma trim_a_one_space p :
+  trim_a p = p -> p <> [] -> trim_a (p ++ [32]) = p.
+Proof.
+  intros Ht Hn. assert (Hne : trim_a p <> []) by (rewrite Ht; exact Hn).
+  destruct (trim_a_nonws_ends p Hne) as [h [m [z [Hs [Hh Hz]]]]]. rewrite Ht in Hs.
+  unfold trim_a.
+  assert (D1 : dropws (p ++ [32]) = p ++ [32]).
+  { apply dropws_fix. destruct Hs as [->|[-> _]]; exact Hh. }
+  rewrite D1, rev_app_distr. cbn [rev app dropws]. change (is_ascii_ws 32) with true. cbv iota.
+  assert (D2 : dropws (rev p) = rev p).
+  { apply dropws_fix. destruct Hs as [->|[-> ->]].
+    - change (h :: m ++ [z]) with ((h :: m) ++ [z]). rewrite rev_app_distr. exact Hz.
+    - exact Hh. }
+  rewrite D2. apply rev_involutive.
+Qed.
+
+Theorem from_strep_name_pretty p :
+  pretty_ok p ->
+  from_strep_data p = {| a_id := lower p; a_name := p; a_reg := false |}
+  /\ from_strep_data (p ++ s_reg_suffix)
+     = {| a_id := lower p ++ s_reg_suffix; a_name := p ++ s_reg_suffix; a_reg := true |}.
+Proof.
+  intros Hp. destruct (pretty_fix p Hp) as [Hf Hr]. destruct Hp as [Ha _ Hd Ht Hn]. split.
+  - rewrite from_strep_data_eq, Hr, Hf. reflexivity.
+  - rewrite from_strep_data_eq, has_reg_suffix.
+    assert (Hpo : pretty_of (p ++ s_reg_suffix) = p).
+    { unfold pretty_of. rewrite has_reg_suffix, (repl_reg_suffix p Hr).
+      assert (Hne : trim_a p <> []) by (rewrite Ht; exact Hn).
+      destruct (trim_a_nonws_ends p Hne) as [h [m [z [Hs [Hh Hz]]]]]. rewrite Ht in Hs.
+      assert (Hz32 : z <> 32) by (intros ->; discriminate Hz).
+      assert (Hc : collapse (p ++ [32; 32]) = p ++ [32]).
+      { destruct Hs as [Hs|[Hs ->]].
+        - apply (collapse_two_spaces p z (h :: m) Hd); [exact Hs|exact Hz32].
+        - apply (collapse_two_spaces p h [] Hd); [exact Hs|exact Hz32]. }
+      rewrite Hc. rewrite trim_ascii by (rewrite is_ascii_app, Ha; reflexivity).
+      rewrite (trim_a_one_space p Ht Hn). destruct p; [contradiction|reflexivity]. }
+    rewrite Hpo. reflexivity.
+Qed.
+
+(* C11 field theorem: Affiliate::from_strep (name a) = a *)
+Theorem from_strep_name s :
+  is_ascii s = true -> from_strep_data (a_name (from_strep_data s)) = from_strep_data s.
+Proof.
+  intros Ha. pose proof (pretty_of_ok s Ha) as Hp.
+  destruct (from_strep_name_pretty _ Hp) as [E1 E2].
+  rewrite (from_strep_data_eq s). destruct (has_reg s); cbn [a_name]; [exact E2|exact E1].
+Qed.
+
+(* the written name is never blank and needs no trimming *)
+Theorem from_strep_name_cell s :
+  is_ascii s = true ->
+  trim (a_name (from_strep_data s)) = a_name (from_strep_data s) /\ a_name (from_strep_data s) <> [].
+Proof.
+  intros Ha. pose proof (pretty_of_ok s Ha) as [Pa Pr Pd Pt Pn].
+  rewrite (from_strep_data_eq s). destruct (has_reg s); cbn [a_name].
+  - split; [|intros E; apply app_eq_nil in E; destruct E; discriminate].
+    assert (Hne : trim_a (pretty_of s) <> []) by (rewrite Pt; exact Pn).
+    destruct (trim_a_nonws_ends _ Hne) as [h [m [z [Hs [Hh Hz]]]]]. rewrite Pt in Hs.
+    rewrite trim_ascii by (rewrite is_ascii_app, Pa; reflexivity).
+    unfold trim_a.
+    assert (D1 : dropws (pretty_of s ++ s_reg_suffix) = pretty_of s ++ s_reg_suffix).
+    { apply dropws_fix. destruct Hs as [->|[-> _]]; exact Hh. }
+    rewrite D1, rev_app_distr. cbn [rev app s_reg_suffix dropws]. change (is_ascii_ws 41) with false. cbv iota.
+    change (41 :: 82 :: 40 :: 32 :: rev (pretty_of s)) with (rev s_reg_suffix ++ rev (pretty_of s)).
+    rewrite <- rev_app_distr. apply rev_involutive.
+  - split; [|exact Pn]. rewrite (trim_ascii _ Pa). exact Pt.
+Qed.
